@@ -40,10 +40,15 @@ def run(tier, replay=None):
     summ = common.harness_traces("c06", tier, shards=8, env=env)
     common.validate(v, "Trace_Api", "Trace_Api.cfg", summ, key)
     v.coverage["configurations"] = summ["extra"]["configurations"]
+    # the source address of every kind of request, seen from the farm (bind addresses 127.0.0.2 / 127.0.0.3)
+    from .c05 import export
+    layouts, _ = export()
+    src = common.harness_traces("c06src", tier, shards=1, extra_args=["-x", "layouts=%s;port=%d" % (layouts, 28700)], timeout=600)
+    common.validate(v, "Trace_Api", "Trace_Api.cfg", src, lambda conj, rec: "%s:%s:bind=%s" % (conj, rec["path"], rec["bind"]))
     groups = ["G_mixed_fixed", "G_mixed_eph", "G_udp_fixed"]
     n = 30 if tier == "quick" else 300
     transport.run_groups(v, groups, n)
     v.coverage["rule"] = ("Rig S: 32 operations x 270 client configurations ({unconfigured, no address, 0.0.0.0, port 0, valid, alternate port} x {udp,tcp,any,'',TCP} x 3 bind addresses x {broadcast unset, set, set with other port}), two other controllers always configured; "
-                          "Rig L: %d behaviours per group with broadcast / connected UDP / TCP calls: arrival endpoint, source address, exactly-once, silent decoys. distinct = (operation, configuration) + scenarios" % n)
+                          "Rig L: %d behaviours per group with broadcast / connected UDP / TCP calls: arrival endpoint, source address, exactly-once, silent decoys; discovery / broadcast-to / connected UDP / TCP from bind addresses 127.0.0.2:0 and 127.0.0.3:<fixed>, the source seen by the farm (SourceIsBindAddress). distinct = (operation, configuration) + scenarios" % n)
     v.coverage["checker_cmd"] = "tlc Trace_Api (RouteOK, OneTransportCall); tlc Trace_Transport (TAsk: via/to/srcok/nth)"
     return v.finish()
